@@ -26,6 +26,10 @@ type EnvEvent struct {
 type EnvOpts struct {
 	BindOK    bool
 	BindFail  bool
+	// BindPartial: the binder is between two ReserveGpuDevice calls of a multi-device fractional pod:
+	// the first selected group is reserved and labelled on the pod, the others not yet; the pod is
+	// not bound and the BindRequest still pending. Reachable without any fault.
+	BindPartial bool
 	Terminate bool
 	Recreate  bool // terminate + recreate as pending (closed system)
 	Complete  bool
@@ -80,6 +84,24 @@ func ApplyBindOK(w *world.World, brName string) {
 		}
 	}
 	br.Status.Phase = schedv1alpha2.BindRequestPhaseSucceeded
+}
+
+// ApplyBindPartial: see EnvOpts.BindPartial.
+func ApplyBindPartial(w *world.World, brName string) {
+	br := w.BindRequestFor(brName)
+	if br == nil || len(br.Spec.SelectedGPUGroups) < 2 {
+		return
+	}
+	p := w.Pod(br.Spec.PodName)
+	if p == nil {
+		return
+	}
+	if p.Labels == nil {
+		p.Labels = map[string]string{}
+	}
+	g := br.Spec.SelectedGPUGroups[0]
+	world.SetGPUGroupLabels(p.Labels, p.Annotations[world.NumDevicesAnno], []string{g})
+	ensureReservation(w, br.Spec.SelectedNode, g)
 }
 
 func ensureReservation(w *world.World, node, group string) {
@@ -247,6 +269,9 @@ func StdEnvEvents(w *world.World, o EnvOpts) []EnvEvent {
 		if o.BindFail && b.Status.Phase != schedv1alpha2.BindRequestPhaseFailed {
 			evs = append(evs, EnvEvent{Name: "bindFail:" + name, Apply: func(w *world.World) { ApplyBindFail(w, name) }})
 		}
+		if o.BindPartial && len(b.Spec.SelectedGPUGroups) >= 2 && p.Spec.NodeName == "" && len(world.PodGPUGroups(p)) == 0 {
+			evs = append(evs, EnvEvent{Name: "bindPartial:" + name, Apply: func(w *world.World) { ApplyBindPartial(w, name) }})
+		}
 	}
 	pods := append([]*corev1.Pod{}, w.Pods...)
 	sort.Slice(pods, func(i, j int) bool { return pods[i].Name < pods[j].Name })
@@ -277,7 +302,7 @@ func StdEnvEvents(w *world.World, o EnvOpts) []EnvEvent {
 
 // ApplyEnvByName re-applies a recorded event (replay).
 func ApplyEnvByName(w *world.World, name string) error {
-	all := EnvOpts{BindOK: true, BindFail: true, Terminate: true, Recreate: true, Complete: true, DeleteNode: true}
+	all := EnvOpts{BindOK: true, BindFail: true, BindPartial: true, Terminate: true, Recreate: true, Complete: true, DeleteNode: true}
 	for _, e := range StdEnvEvents(w, all) {
 		if e.Name == name {
 			e.Apply(w)
